@@ -110,6 +110,22 @@ pub fn finish() -> Sim {
 }
 
 impl Sim {
+    /// Hot-path variant: the digest folds the numeric key, the text is only built when the log is kept.
+    pub fn event_k(&mut self, key: [u64; 4], what: impl FnOnce() -> String) -> u64 {
+        self.seq += 1;
+        let mut h = self.digest ^ self.seq;
+        for k in key {
+            h ^= k;
+            h = h.wrapping_mul(0x100000001b3);
+            h ^= h >> 29;
+        }
+        self.digest = h;
+        if self.keep_log {
+            self.log.push(Event { seq: self.seq, what: what() });
+        }
+        self.seq
+    }
+
     pub fn event(&mut self, what: impl FnOnce() -> String) -> u64 {
         self.seq += 1;
         let w = what();
